@@ -41,6 +41,35 @@ def do_replay(path, as_json):
                 out = o
                 how = "after replaying the first %d cases of its work unit (history dependent: the case alone passes)" % k
                 break
+    if out.ok and rp.get("shard"):
+        # still passes: state may have been carried over from earlier units of the same worker - re-execute that worker's
+        # share of the driver's unit stream up to the unit in question (deterministic: same units, same order)
+        w, nw, uidx = rp["shard"]
+        for prev in drivers:
+            if prev.id == rp["driver"]:
+                break
+            # the drivers that ran before this one in the same worker process (state may cross drivers too)
+            pidx = -1
+            for unit in prev.units():
+                pidx += 1
+                if pidx % nw == w:
+                    for _case, _o in prev.execute(unit):
+                        pass
+        idx = -1
+        for unit in d[0].units():
+            idx += 1
+            if idx % nw != w:
+                continue
+            k = -1
+            for case, o in d[0].execute(unit):
+                k += 1
+                if idx == uidx and k == rp["unit_pos"]:
+                    out = o
+                    break
+            if idx >= uidx:
+                break
+        how = ("after replaying worker %d/%d's whole share of the exploration up to unit %d of this driver (state carried between "
+               "units; the case alone and its unit alone pass)" % (w, nw, uidx))
     obs = json.dumps(dict(ok=out.ok, cls=out.cls, ref=str(out.ref), impl=str(out.impl), how=how), sort_keys=True)
     print("OBS " + obs)
     if not as_json:
@@ -203,7 +232,8 @@ def main():
     if harness_errors:
         for h in harness_errors[:5]:
             print("HARNESS-ERROR " + h[-3000:])
-        return 2
+        if not reported:
+            return 2
     return 1 if reported else 0
 
 
